@@ -127,6 +127,68 @@ impl DurationLiteral {
         }
     }
 
+    /// Creates a duration from a number of units, where one unit has the
+    /// given number of seconds. The whole part and the fraction are both
+    /// exact. Returns None if the duration cannot be represented.
+    fn checked_from_units(value: FixedPoint, seconds_per_unit: u64) -> Option<Self> {
+        let whole_seconds = i64::try_from(value.whole)
+            .ok()?
+            .checked_mul(seconds_per_unit as i64)?;
+        // The fraction in units of 10^-15 seconds
+        let fraction = value.femptos as u128 * seconds_per_unit as u128;
+        let fraction_seconds = (fraction / FixedPoint::FRACTIONAL_UNITS as u128) as i64;
+        let fraction_nanoseconds =
+            ((fraction % FixedPoint::FRACTIONAL_UNITS as u128) / 1_000_000) as i32;
+        let interval = Duration::seconds(whole_seconds)
+            .checked_add(Duration::new(fraction_seconds, fraction_nanoseconds))?;
+        Some(Self {
+            span: value.span,
+            interval,
+        })
+    }
+
+    /// Same as `days` but returns None if the value is not representable.
+    pub fn checked_days(days: FixedPoint) -> Option<Self> {
+        Self::checked_from_units(days, SECOND_PER_DAY)
+    }
+
+    /// Same as `hours` but returns None if the value is not representable.
+    pub fn checked_hours(hours: FixedPoint) -> Option<Self> {
+        Self::checked_from_units(hours, SECOND_PER_HOUR)
+    }
+
+    /// Same as `minutes` but returns None if the value is not representable.
+    pub fn checked_minutes(minutes: FixedPoint) -> Option<Self> {
+        Self::checked_from_units(minutes, SECOND_PER_MINUTE)
+    }
+
+    /// Same as `seconds` but returns None if the value is not representable.
+    pub fn checked_seconds(seconds: FixedPoint) -> Option<Self> {
+        Self::checked_from_units(seconds, 1)
+    }
+
+    /// Same as `milliseconds` but returns None if the value is not representable.
+    pub fn checked_milliseconds(millis: FixedPoint) -> Option<Self> {
+        let whole_seconds = Duration::seconds(i64::try_from(millis.whole / 1_000).ok()?);
+        let whole_milliseconds = Duration::milliseconds((millis.whole % 1_000) as i64);
+        let fraction_nanoseconds = Duration::nanoseconds((millis.femptos / 1_000_000_000) as i64);
+        let interval = whole_seconds
+            .checked_add(whole_milliseconds)?
+            .checked_add(fraction_nanoseconds)?;
+        Some(Self {
+            span: millis.span,
+            interval,
+        })
+    }
+
+    /// Same as `plus` but returns None if the sum is not representable.
+    pub fn checked_plus(&self, other: DurationLiteral) -> Option<Self> {
+        Some(DurationLiteral {
+            span: SourceSpan::join(&self.span, &other.span),
+            interval: self.interval.checked_add(other.interval)?,
+        })
+    }
+
     pub fn plus(&self, other: DurationLiteral) -> Self {
         DurationLiteral {
             span: SourceSpan::join(&self.span, &other.span),
